@@ -391,8 +391,13 @@ def rule_entry(ctx):
     if fn is None:
         return ctx.missing(R, "build_basic_blocks")
     t = render(fn["body"]).replace(" ", "")
-    ctx.check(R, "build_basic_blocks/entry-block", "BasicBlockVec::new(BasicBlock::new(meta,Index::default(),0))" in t, t[:200], site(LF, fn))
-    ctx.check(R, "build_basic_blocks/lifts-the-body-at-depth-0", "visit_statement(body,0,env,reports,&mutbasic_blocks)?" in t, "", site(LF, fn))
+    import sgrep
+    pvb = sgrep.params(fn)
+    envb = sgrep.lets(fn["body"])
+    bbn = [k for k, v in envb.items() if sgrep.has(v, "BasicBlockVec::new(BasicBlock::new(__m, Index::default(), 0))", envb) or sgrep.has(v, "BasicBlockVec::new(BasicBlock::new(__m, 0, 0))", envb)]
+    ctx.check(R, "build_basic_blocks/entry-block", len(bbn) == 1, "the block vector starts with one block of index 0 at depth 0: %s" % bbn, site(LF, fn))
+    okv = len(pvb) == 3 and len(bbn) == 1 and sgrep.has(fn["body"], "visit_statement(__b, 0, __e, __r, __v)?", None, {"__b": pvb[0], "__e": pvb[1], "__r": pvb[2], "__v": bbn[0]})
+    ctx.check(R, "build_basic_blocks/lifts-the-body-at-depth-0", okv, "", site(LF, fn))
     bb = find_fn(BB, "new", "BasicBlock")
     if bb is not None:
         t = render(bb["body"]).replace(" ", "")
